@@ -119,6 +119,7 @@ def set_encoding(encoding: str) -> None:
         "big5",
         "cn-gb",
         "uhc",
+        "cp949",  # the codec "uhc" is an alias of
         # these shouldn't happen, should they?
         "eucjp",
         "euckr",
